@@ -394,7 +394,7 @@ func c17Case(r *obs.Run, i int) {
 			r.Sample(map[string]interface{}{"class": "valid complementor", "letters": string(def), "pair_s": string(s), "pair_c": string(c), "cased": cased})
 		}
 	default: // invalid definitions
-		kind := rng.Intn(6)
+		kind := rng.Intn(7)
 		// non-ASCII runes incl. ones whose low byte is below 0x80 (U+0100, U+0141, U+4E16, U+1D11E) and invalid UTF-8
 		// and the runes that case folding maps onto ASCII letters (U+212A Kelvin -> k, U+0130 -> i, U+017F -> S, U+0131 -> I)
 		junk := []string{"\xff", "é", "\xc3", "λ", "\x80", "日", "\xed\xa0\x80", "ÿ", "Ā", "Ł", "世", "𝄞", "ŉa", "\u0100", "\u212a", "\u0130", "\u017f", "\u0131", "\u212b"}[rng.Intn(19)]
@@ -425,6 +425,38 @@ func c17Case(r *obs.Run, i int) {
 			r.Note("inv1/"+s+"/"+c, true)
 			if _, err := alphabet.NewPairing(s, c); err == nil {
 				r.Violate("constructor-accepts-invalid", fmt.Sprintf("non-ASCII pairing (%q,%q) accepted", s, c), w)
+				return
+			}
+		case 6: // a well-formed involution that pairs a letter of the alphabet with a letter outside it
+			var x byte
+			for tries := 0; tries < 200; tries++ {
+				x = byte(33 + rng.Intn(94))
+				lo, up := x, x
+				if isUpper(x) {
+					lo = x + 32
+				} else if isLower(x) {
+					up = x - 32
+				}
+				if bytes.IndexByte(def, x) < 0 && bytes.IndexByte(def, lo) < 0 && bytes.IndexByte(def, up) < 0 && alphabet.Letter(x) != gap && alphabet.Letter(x) != amb {
+					break
+				}
+				x = 0
+			}
+			a := def[rng.Intn(len(def))]
+			if x == 0 || alphabet.Letter(a) == gap || alphabet.Letter(a) == amb {
+				return
+			}
+			ps, pc := string([]byte{a, x}), string([]byte{x, a})
+			w = c17w{"invalid", map[string]string{"letters": string(def), "pair_s": ps, "pair_c": pc}, nil, "NewComplementor with a pairing that leaves the alphabet"}
+			r.Note("inv6/"+string(def)+"/"+ps, true)
+			pr, err := alphabet.NewPairing(ps, pc)
+			if err != nil {
+				r.Inconclusive("harness: NewPairing rejected the involution " + ps + "/" + pc + ": " + err.Error())
+				return
+			}
+			if comp, err := alphabet.NewComplementor(string(def), feat.DNA, pr, gap, amb, cased); err == nil {
+				cl, ok := comp.Complement(alphabet.Letter(a))
+				r.Violate("constructor-accepts-invalid", fmt.Sprintf("NewComplementor(%q) accepted the pairing %q<->%q: the complement of the valid letter %q is %q (ok=%v), which is not a letter of the alphabet (IsValid=%v)", def, a, x, a, cl, ok, comp.IsValid(cl)), w)
 				return
 			}
 		case 3: // length mismatch
